@@ -96,7 +96,9 @@ def seeded(rng, pid):
                 "order": False, "src": "keep-alive-then-stop"}
     nt = rng.choice([3, 5, 8])
     mx = rng.choice([1, 2, 4])
-    mn = 0   # with min_size > 0 an idle worker never yields, so a timed pass never returns (see DESIGN.md, observations)
+    # min_size > 0: the last idle worker of a pool at its minimum size has to give the thread back, otherwise a timed
+    # pass never returns (and an event loop would stop looking at its timers and readiness events)
+    mn = 1 if (pid in ("C11", "C12") and mx >= 1 and rng.random() < 0.2) else 0
     hist = []
     outcomes = {}
     prios = {}
